@@ -100,7 +100,12 @@ R3  switched-off species stay out: every store m[Species.K] = … into an index
     every species only under its switch; a key that walks a constant
     collection of Species members (tuple of members, table of (member, value)
     rows, dict display) is decided member by member like a store under that
-    constant key.
+    constant key.  A map kept as the state of an object of a repository class
+    (`acc = _Collector(…)`, `self.indices[K] = …` / `self.indices.update(…)` in
+    its methods, `acc.indices` handed back - through a local or in place) is
+    followed into the methods of the class: every store into `self.<attr>`
+    there is a store into the inventory's indices, and the call sites of the
+    method are places the entries pass on their way in.
     "Imply" is decided, not matched: the table gives for each species the
     condition under which EmissionsConfig.enabled_species contains it - found
     by evaluating the property's body over a concrete domain of Species
@@ -113,7 +118,10 @@ R3  switched-off species stay out: every store m[Species.K] = … into an index
     fields (bool switches, method enums; derived `<label>_enabled` properties
     evaluated from their own bodies).  The facts at a site (tests on
     config.emissions.*, `Species.J in enabled_species`, match arms and the
-    arms before them, guard clauses; locals with one definition expanded) are
+    arms before them, guard clauses - also a `match` earlier in the block
+    whose arms leave: an arm of values that returns / raises was not taken, and
+    under a default that leaves one of the arms that come back was -; locals
+    with one definition expanded) are
     predicates over the same fields, and they imply K when every assignment
     of the fields that satisfies them has K enabled.  Facts that are not about
     the configuration are left out (that only weakens the premise).
@@ -164,7 +172,11 @@ R7  "works or is refused by name" - no internal error from a store: an object
     not be one that refuses the store.  Decided by def-use over the emissions
     package: origins are followed back through reaching definitions on the
     CFG, through elements of local mappings (a re-store of the same element
-    that every path passes kills the older ones; `.update(f())`, loops over
+    that every path passes kills the older ones, and so does a completed loop
+    over the map's own keys that puts a new value at each, `for k in m: m[k] =
+    m[k].copy(mutable=True)`, with no other write into the map after it - the
+    elements read later, also through `.values()`, are the copies;
+    `.update(f())`, loops over
     .items()/.values() and over literal collections are followed), through
     view-preserving numpy operations, module constants and the returns of
     resolved repository functions.  Refusing origins: np.broadcast_to and
@@ -176,6 +188,25 @@ R7  "works or is refused by name" - no internal error from a store: an object
     `.copy(mutable=True)`, `.copy()` of an array, np.array / np.full /
     arithmetic make fresh writable objects.  (A memoised function's result is
     T-MEMO M2.)  Positive control: an embedded producer.
+R8  a map per flight: every species map a per-flight producer hands back (the
+    arguments of the EmissionsSubset it returns), and every map whose entries
+    get into its index map wholesale (R3's flow), is an object made in the
+    course of the call - by a constructor call, a display, a copy evaluated on
+    the way.  An object made once for the process keeps what an earlier flight
+    stored under another configuration: a species switched off since then is
+    still in the inventory (and a stale array of another length fails to
+    broadcast: an internal error).  Decided by following the object back:
+    bindings of locals, conditional expressions, parameters (the argument at
+    every call site; the default - evaluated once, when the function is defined
+    - where a call site leaves the parameter out), the returns of resolved
+    repository functions, attributes of instances of repository classes (every
+    `self.attr = v` in the methods of the class; the value in the class body
+    unless a constructor - or a set-up method it calls - gives each instance
+    an object of its own; dataclass `field(default_factory=…)` is per
+    instance), module-level names in this or an imported module.  Made once:
+    a mutable object built at module level, in a class body, or as a
+    parameter default.  What cannot be followed is not reported (the rule
+    forbids, it does not guess); floor on the number of maps asked about.
 """
 
 from __future__ import annotations
@@ -244,9 +275,39 @@ def early_exit_facts(fn: ast.AST, node: ast.AST):
                     if isinstance(s, ast.If) and isinstance(last_stmt(s.body), (ast.Return, ast.Raise, ast.Continue)) \
                             and not s.orelse:
                         out.append((s.test, False))
+                    elif isinstance(s, ast.Match):
+                        out.extend(_match_exit_facts(s))
         if a is fn:
             break
         child = a
+    return out
+
+
+def _match_exit_facts(m: ast.Match):
+    """What is known after a `match` some arms of which always leave (return / raise / continue), as facts
+    `subject in <pattern>`: an arm of value patterns that leaves was not taken - the subject is none of its values
+    (only for values no earlier arm can take first: such an arm could come back with that value); and when an
+    irrefutable default leaves, one of the arms that come back was taken - the subject is one of their values."""
+    out = []
+    earlier: set[str] = set()       # values an earlier arm may take
+    unreadable = False              # an earlier arm whose pattern is not a list of values (capture, class pattern)
+    back = []                       # arms that can fall out of the match
+    for c in m.cases:
+        leaves = isinstance(last_stmt(c.body), (ast.Return, ast.Raise, ast.Continue))
+        vals = _pattern_values(c.pattern)
+        if c.guard is None and isinstance(c.pattern, ast.MatchAs) and c.pattern.pattern is None:
+            if leaves and back and all(_pattern_values(b.pattern) is not None for b in back):
+                out.append((ast.Compare(left=m.subject, ops=[ast.In()],
+                                        comparators=[ast.MatchOr(patterns=[b.pattern for b in back])]), True))
+            break
+        if leaves and c.guard is None and vals is not None and not unreadable and not ({norm(v) for v in vals} & earlier):
+            out.append((ast.Compare(left=m.subject, ops=[ast.In()], comparators=[c.pattern]), False))
+        if vals is None:
+            unreadable = True
+        else:
+            earlier |= {norm(v) for v in vals}
+        if not leaves:
+            back.append(c)
     return out
 
 
@@ -2765,10 +2826,45 @@ class _IndexFlow:
         finally:
             self._stack.pop()
 
+    def visit_attr(self, owner, attr, ctx):
+        """the map is attribute `attr` of instances of repository class owner: every method of the class that touches
+        `self.attr` holds it under that name; the call sites of the method are on the way in"""
+        for c in owner.mro():
+            for meth in c.methods.values():
+                if not meth.params or any('staticmethod' in d or 'classmethod' in d for d in meth.decorators()):
+                    continue
+                name = f'{meth.params[0]}.{attr}'
+                if not any(isinstance(x, ast.Attribute) and x.attr == attr and norm(x) == name for x in walk_no_nested(meth.node)):
+                    continue
+                sites = [(caller, call) for caller, call in callers_of(self.prog, meth) if caller.node is not meth.node]
+                for caller, call in sites:
+                    self.visit(meth, name, ctx + [(caller, call)])
+                if not sites:
+                    self.visit(meth, name, ctx)
+
+    def _stateful(self, owner, attr) -> bool:
+        """some method of the class binds or fills `self.attr` (the class keeps the map as state of its instances)"""
+        for c in owner.mro():
+            for meth in c.methods.values():
+                if not meth.params:
+                    continue
+                name = f'{meth.params[0]}.{attr}'
+                for t, _st, how in stores_to(meth.node):
+                    b = t.value if isinstance(t, ast.Subscript) else t
+                    if isinstance(b, ast.Attribute) and norm(b) == name and how != 'del':
+                        return True
+                for c_ in calls_in(meth.node):
+                    if isinstance(c_.func, ast.Attribute) and c_.func.attr in ('update', 'setdefault') and norm(c_.func.value) == name:
+                        return True
+        return False
+
     def _sources(self, fi, name, ctx):
         prog = self.prog
+
+        def is_map(x):
+            return (isinstance(x, ast.Attribute) and norm(x) == name) if '.' in name else (isinstance(x, ast.Name) and x.id == name)
         for t, st, how in stores_to(fi.node):
-            if not (isinstance(t, ast.Name) and t.id == name):
+            if not is_map(t):
                 continue
             if how in ('assign', 'ann'):
                 v = _stored_value(t, st)
@@ -2782,20 +2878,19 @@ class _IndexFlow:
             elif how == 'aug' and isinstance(getattr(st, 'op', None), ast.BitOr):
                 self.expr(fi, st.value, ctx + [(fi, st)])
         for c in calls_in(fi.node):
-            if isinstance(c.func, ast.Attribute) and isinstance(c.func.value, ast.Name) and c.func.value.id == name \
-                    and c.func.attr == 'update':
+            if isinstance(c.func, ast.Attribute) and is_map(c.func.value) and c.func.attr == 'update':
                 for a in c.args:
                     if not isinstance(a, ast.Starred):
                         self.expr(fi, a, ctx + [(fi, stmt_of(c) or c)])
                 continue
             # the map handed to a function that stores into the parameter it arrives in
-            if any(isinstance(a_, ast.Name) and a_.id == name for a_ in [*c.args, *[k.value for k in c.keywords]]):
+            if any(is_map(a_) for a_ in [*c.args, *[k.value for k in c.keywords]]):
                 callee = resolve_call(prog, fi, c)
                 if callee is None or callee.node is fi.node or _record_args(prog, fi, c) is not None:
                     continue
                 for pname in callee.params:
                     a_ = _bound_arg(callee, c, pname)
-                    if isinstance(a_, ast.Name) and a_.id == name and _fills(callee, pname):
+                    if a_ is not None and is_map(a_) and _fills(callee, pname):
                         self.visit(callee, pname, ctx + [(fi, c)])
         if name in fi.params:
             for caller, call in callers_of(prog, fi):
@@ -2837,6 +2932,13 @@ class _IndexFlow:
                 self._returns(fi, e, ctx, None, depth)
             return
         if isinstance(e, ast.Name):
+            if isinstance(sel, str):
+                # an attribute of an instance of a repository class that keeps the map as its state (`acc.indices`
+                # with `self.indices[K] = …` in the methods of the class): the stores in the methods are stores into it
+                owner = expr_class(prog, fi, e)
+                if owner is not None and self._stateful(owner, sel):
+                    self.visit_attr(owner, sel, ctx)
+                    return
             if e.id not in fi.params:
                 self.expr(fi, single_def_value(fi.node, e.id), ctx, sel, depth + 1)
         elif isinstance(e, (ast.Tuple, ast.List)):
@@ -2850,7 +2952,12 @@ class _IndexFlow:
                 if f in args:
                     self.expr(fi, args[f], ctx, None, depth + 1)
             else:
-                self._returns(fi, e, ctx, sel, depth)
+                from ..resolve import resolve_class_call
+                rc = resolve_class_call(prog, fi, e)
+                if rc is not None and isinstance(sel, str) and self._stateful(rc, sel):
+                    self.visit_attr(rc, sel, ctx)
+                else:
+                    self._returns(fi, e, ctx, sel, depth)
 
     def _returns(self, fi, call, ctx, sel, depth):
         callee = resolve_call(self.prog, fi, call)
@@ -2899,6 +3006,7 @@ def rule_stores(ctx, groups):
     prog = ctx.prog
     n = 0
     n_fn = 0
+    flows = []          # (module, entry producer, its flow): what R8 asks about
 
     def way_premises(c):
         return [p for f, nd in c for p in groups.premises(f, facts_at(f.node, nd))]
@@ -2935,7 +3043,7 @@ def rule_stores(ctx, groups):
         keyvar = t.slice.id
         for tt, pol in facts_at(fi.node, st):
             if pol and isinstance(tt, ast.Compare) and not isinstance(tt.comparators[0], ast.pattern) \
-                    and isinstance(tt.ops[0], ast.In) and norm(tt.left) == keyvar and 'enabled_species' in norm(tt.comparators[0]):
+                    and isinstance(tt.ops[0], ast.In) and norm(tt.left) == keyvar and 'enabled_species' in norm(_expanded(fi, tt.comparators[0], {})):
                 return None
         val = getattr(st, 'value', None)
         if val is not None and f'{norm(t.value)}[{keyvar}]' in norm(val):
@@ -2950,19 +3058,25 @@ def rule_stores(ctx, groups):
         part = rel.split("/")[-1][:-3]
         old = _producers(prog, rel)
         flow = _IndexFlow(prog)
+        flows.append((rel, old[0][0], flow))
         for m_ in sorted(old[0][1]):
             flow.visit(old[0][0], m_, [])
         for r_ in walk_no_nested(old[0][0].node):
             # the inventory part handed back through a local (`part = EmissionsSubset(indices=m, …)` … `return part`)
             if isinstance(r_, ast.Return) and isinstance(r_.value, ast.Name):
                 flow.expr(old[0][0], r_.value, [], 'indices')
+            # … or read off an object in place (`return EmissionsSubset(indices=acc.indices, …)`)
+            if isinstance(r_, ast.Return) and isinstance(r_.value, ast.Call) and call_name(r_.value).split('[')[0] == 'EmissionsSubset':
+                a_ = next((k.value for k in r_.value.keywords if k.arg == 'indices'), r_.value.args[0] if r_.value.args else None)
+                if isinstance(a_, ast.Attribute):
+                    flow.expr(old[0][0], a_, [])
         # a store under a key that walks another mapping copies that mapping's species: its entries flow in as well
         done = 0
         while done < len(flow.order) and done < 200:
             fi, name, ways = flow.maps[flow.order[done]]
             done += 1
             for t, st, how in stores_to(fi.node):
-                if isinstance(t, ast.Subscript) and isinstance(t.value, ast.Name) and t.value.id == name and isinstance(t.slice, ast.Name) \
+                if isinstance(t, ast.Subscript) and norm(t.value) == name and isinstance(t.slice, ast.Name) \
                         and how in ('assign', 'ann'):
                     src = copied_from(fi, t, st) if not _literal_species_keys(prog, fi, st, t.slice.id) else None
                     if isinstance(src, (ast.Name, ast.Attribute, ast.Subscript, ast.Call)) and _only_enabled_keys(prog, fi, _governing(st, t.slice.id)[2], groups) is None:
@@ -3010,7 +3124,7 @@ def rule_stores(ctx, groups):
                     for tt, pol in atoms:
                         if pol and isinstance(tt, ast.Compare) and not isinstance(tt.comparators[0], ast.pattern) \
                                 and isinstance(tt.ops[0], ast.In) and norm(tt.left) == keyvar \
-                                and 'enabled_species' in norm(tt.comparators[0]):
+                                and 'enabled_species' in norm(_expanded(fi, tt.comparators[0], {})):
                             g = norm(tt)
                     # the key is already in the map - nothing that was off can get in - when the value reads the
                     # map at that key, or when the key variable walks the map's own keys (`for k in m`, `m.keys()`,
@@ -3072,6 +3186,7 @@ def rule_stores(ctx, groups):
         n_fn += len(seen_fn | {(old[0][0].file, old[0][0].qualname)})
     ctx.floor('C11-R3/producers', n_fn, 2, 'functions that build the trajectory and LTO index maps')
     ctx.floor('C11-R3', n, 18, 'species stores in trajectory and LTO producers')
+    return flows
 
 
 def _via(fi, name, ways):
@@ -3126,6 +3241,245 @@ def _maplike(fi, name) -> bool:
         elif not isinstance(v, (ast.Dict, ast.DictComp, ast.Name, ast.Attribute, ast.Subscript, ast.IfExp, ast.BinOp)):
             return False
     return True
+
+
+# ---------------------------------------------------------------- R8 -----
+_IMMUTABLE_MAKERS = ('frozenset', 'tuple', 'MappingProxyType', 'types.MappingProxyType', 'str', 'int', 'float', 'bool', 'bytes',
+                     'object', 'Path', 're.compile', 'TypeVar', 'logging.getLogger', 'getLogger')
+_MEMO_DECORATORS = ('cache', 'lru_cache', 'cached_property', 'memoize', 'memoise')
+
+
+def _makes_object(v) -> bool:
+    """evaluating the expression builds a mutable object: a call (not one of the makers of immutable values), a display,
+    a comprehension"""
+    if isinstance(v, ast.Call):
+        return call_name(v).split('[')[0] not in _IMMUTABLE_MAKERS
+    return isinstance(v, (ast.Dict, ast.List, ast.Set, ast.DictComp, ast.ListComp, ast.SetComp))
+
+
+def _default_of(callee, pname):
+    a = callee.node.args
+    names = [p.arg for p in a.posonlyargs + a.args]
+    d = dict(zip(names[len(names) - len(a.defaults):], a.defaults))
+    d.update({p.arg: v for p, v in zip(a.kwonlyargs, a.kw_defaults) if v is not None})
+    return d.get(pname)
+
+
+class _MadeOnce:
+    """Where was the object an expression stands for made: in the course of the call that uses it, or once for the whole
+    process?  Followed back through the bindings of locals, conditional expressions, parameters (the argument of every
+    call site; the default where a call site leaves the parameter out), the returns of resolved repository functions,
+    and attributes of instances of repository classes (every `self.attr = v` in a method of the class; the value in
+    the class body when no constructor replaces it per instance).  Answers with the places that make the object once:
+    ('module' | 'class' | 'default', text, file, line, note).  An object made by a call or a display that is evaluated
+    on the way is fresh and has no tag; what cannot be followed has none either (the rule forbids, it does not guess)."""
+
+    def __init__(self, prog):
+        self.prog = prog
+        self._stack = []
+
+    def origins(self, fi, e, depth=0):
+        key = (fi.file, fi.qualname, id(e))
+        if e is None or depth > 10 or key in self._stack:
+            return set()
+        self._stack.append(key)
+        try:
+            return self._origins(fi, e, depth + 1)
+        finally:
+            self._stack.pop()
+
+    def _static(self, mod, name, v, kind='module', note=''):
+        """the object bound at module / class level by `name = v`"""
+        if _makes_object(v):
+            return {(kind, f'{name} = {norm(v)[:50]}', mod.relpath, v.lineno, note)}
+        if isinstance(v, ast.Name) and v.id in mod.constants and v.id != name:
+            return self._static(mod, v.id, mod.constants[v.id])
+        return set()
+
+    def _resolved(self, r):
+        if isinstance(r, tuple) and r[0] == 'const':
+            return self._static(r[1], r[2], r[1].constants[r[2]])
+        return set()
+
+    def _origins(self, fi, e, depth):
+        prog = self.prog
+        if isinstance(e, ast.NamedExpr):
+            return self.origins(fi, e.value, depth)
+        if isinstance(e, ast.IfExp):
+            return self.origins(fi, e.body, depth) | self.origins(fi, e.orelse, depth)
+        if isinstance(e, ast.BoolOp):
+            return set().union(*[self.origins(fi, v, depth) for v in e.values])
+        if isinstance(e, ast.Name):
+            return self._name(fi, e, depth)
+        if isinstance(e, ast.Attribute):
+            return self._attribute(fi, e, depth)
+        if isinstance(e, ast.Call):
+            from ..resolve import resolve_class_call
+            if resolve_class_call(prog, fi, e) is not None:
+                return set()            # a constructor call: a new object each time it is evaluated
+            callee = resolve_call(prog, fi, e)
+            if callee is None or isinstance(callee.node, ast.Lambda) or callee.name in ('__init__', '__post_init__', '__new__'):
+                return set()
+            if any(m_ in d for d in callee.decorators() for m_ in _MEMO_DECORATORS):
+                return set()            # a memoised result is T-MEMO M2
+            out = set()
+            for r in walk_no_nested(callee.node):
+                if isinstance(r, ast.Return) and r.value is not None:
+                    out |= self.origins(callee, r.value, depth)
+            return out
+        return set()
+
+    def _name(self, fi, e, depth):
+        prog = self.prog
+        out = set()
+        if e.id in fi.params:
+            if fi.cls is not None and fi.params[:1] == [e.id] and e.id in ('self', 'cls'):
+                return out
+            for caller, call in callers_of(prog, fi):
+                b = _bound_arg(fi, call, e.id)
+                if b is not None:
+                    out |= self.origins(caller, b, depth)
+                elif not any(isinstance(x, ast.Starred) for x in call.args) and not any(k.arg is None for k in call.keywords):
+                    d = _default_of(fi, e.id)
+                    if d is not None and _makes_object(d):
+                        out.add(('default', f'{e.id}={norm(d)[:50]}', fi.file, d.lineno,
+                                 f'the default of parameter `{e.id}` of {fi.name}, evaluated once when the function is defined; '
+                                 f'{caller.name} line {call.lineno} leaves the parameter out'))
+            return out
+        ds = local_defs_of(fi, e.id)
+        if ds:
+            for d in ds:
+                if isinstance(d, ast.Assign) and any(isinstance(t, ast.Name) and t.id == e.id for t in d.targets):
+                    out |= self.origins(fi, d.value, depth)
+                elif isinstance(d, ast.AnnAssign) and d.value is not None and isinstance(d.target, ast.Name):
+                    out |= self.origins(fi, d.value, depth)
+            return out
+        if '.<locals>.' in fi.qualname:
+            return out                  # a variable of the enclosing function: not followed
+        return self._resolved(prog.resolve_name(fi.module, e.id))
+
+    def _attribute(self, fi, e, depth):
+        prog = self.prog
+        from ..astutil import dotted_name
+        d = dotted_name(e)
+        if d:
+            head, _, rest = d.partition('.')
+            if head in fi.module.imports and head not in fi.params and not local_defs_of(fi, head):
+                r = prog.resolve_dotted(fi.module.imports[head] + '.' + rest)       # module.NAME
+                if r is not None:
+                    return self._resolved(r)
+        owner = prog.resolve_class_expr(fi.module, e.value)                       # Class.attr
+        inst = owner is None
+        if owner is None:
+            owner = expr_class(prog, fi, e.value)
+        if owner is None:
+            return set()
+        out = set()
+        replaced = False        # a constructor gives every instance an object of its own
+        if inst:
+            # stores through the same name in the function itself, ahead of the read and on every path to it
+            if isinstance(e.value, ast.Name):
+                for t, st, how in stores_to(fi.node):
+                    if how in ('assign', 'ann') and isinstance(t, ast.Attribute) and t.attr == e.attr and norm(t.value) == e.value.id \
+                            and _stored_value(t, st) is not None:
+                        out |= self.origins(fi, _stored_value(t, st), depth)
+                        if any(st is s for s in fi.node.body) and st.lineno < getattr(e, 'lineno', 0):
+                            replaced = True
+            for c in owner.mro():
+                for meth in c.methods.values():
+                    recv = meth.params[:1]
+                    if not recv or any('staticmethod' in x or 'classmethod' in x for x in meth.decorators()):
+                        continue
+                    for t, st, how in stores_to(meth.node):
+                        if how in ('assign', 'ann') and isinstance(t, ast.Attribute) and t.attr == e.attr and norm(t.value) == recv[0]:
+                            v = _stored_value(t, st)
+                            if v is None:
+                                continue
+                            out |= self.origins(meth, v, depth)
+                            if meth.name in ('__init__', '__post_init__') and any(st is s for s in meth.node.body):
+                                replaced = True
+                # one level: a set-up method the constructor calls as a statement (`self._reset()`)
+                for nm in ('__init__', '__post_init__'):
+                    init = c.methods.get(nm)
+                    for s in (init.node.body if init is not None else []):
+                        if isinstance(s, ast.Expr) and isinstance(s.value, ast.Call) and isinstance(s.value.func, ast.Attribute) \
+                                and norm(s.value.func.value) == (init.params[:1] or [''])[0]:
+                            g = owner.find_method(s.value.func.attr)
+                            if g is not None and any(
+                                    isinstance(t, ast.Attribute) and t.attr == e.attr and norm(t.value) == (g.params[:1] or [''])[0]
+                                    and how in ('assign', 'ann') and any(st is s2 for s2 in g.node.body)
+                                    for t, st, how in stores_to(g.node)):
+                                replaced = True
+        if not replaced:
+            for c in owner.mro():
+                v = c.class_assignments().get(e.attr, None)
+                if e.attr not in c.class_assignments():
+                    continue
+                if v is None:
+                    break               # annotation only: no object at class level
+                if isinstance(v, ast.Call) and call_name(v).split('.')[-1] == 'field':
+                    dv = next((k.value for k in v.keywords if k.arg == 'default'), None)
+                    if dv is None:
+                        break           # default_factory: made per instance
+                    v = dv
+                note = (f'in the body of class {c.name}' + (', and no constructor of the class gives each instance one of its own'
+                                                            if inst else ''))
+                out |= self._static(c.module, e.attr, v, 'class', note)
+                break
+        return out
+
+
+def rule_fresh(ctx, flows):
+    """R8: the maps of the per-flight producers are made per flight."""
+    prog = ctx.prog
+    mo = _MadeOnce(prog)
+    n = 0
+    reported = set()
+    for rel, entry, flow in flows:
+        part = rel.split('/')[-1][:-3]
+        sites = []          # (function, expression, what it is)
+        for r in walk_no_nested(entry.node):
+            if not (isinstance(r, ast.Return) and r.value is not None):
+                continue
+            v = r.value
+            if isinstance(v, ast.Name) and v.id not in entry.params:
+                v = single_def_value(entry.node, v.id) or v
+            if isinstance(v, ast.Call) and call_name(v).split('[')[0] == 'EmissionsSubset':
+                for lab, a in [*[(f'argument {i + 1}', a) for i, a in enumerate(v.args)], *[(k.arg, k.value) for k in v.keywords]]:
+                    if isinstance(a, (ast.Name, ast.Attribute, ast.IfExp)):
+                        sites.append((entry, a, f'`{norm(a)[:40]}` ({lab} of the EmissionsSubset {entry.name} hands back)'))
+            elif isinstance(v, (ast.Name, ast.Attribute)):
+                sites.append((entry, v, f'`{norm(v)[:40]}`, which {entry.name} hands back'))
+        have = {(f.qualname, norm(a)) for f, a, _w in sites}
+        for key in flow.order:
+            fi, name, _ways = flow.maps[key]
+            if (fi.qualname, name) in have:
+                continue
+            try:
+                e = ast.parse(name, mode='eval').body
+            except SyntaxError:
+                continue
+            first = next((x for x in walk_no_nested(fi.node) if isinstance(x, type(e)) and norm(x) == name), None)
+            if first is not None:
+                sites.append((fi, first, f'`{name}` of {fi.name}, whose entries get into the {part} indices'))
+        for fi, e, what in sites:
+            n += 1
+            tags = mo.origins(fi, e)
+            new = sorted(t for t in tags if t[:4] not in reported)
+            if tags and not new:
+                continue            # the same object, already reported at the map it was reached from first
+            reported |= {t[:4] for t in new}
+            t = new[0] if new else None
+            ctx.ob('C11-R8', fi, f'{what}: made in the course of the call', not tags,
+                   'every object that can reach it is built by a call or a display evaluated per flight' if not tags else
+                   (f'it can be the object made once at {t[2].split("/")[-1]}:{t[3]} - `{t[1]}`, '
+                    f'{t[4] or "at module level, when the module is imported"} - so every flight of the process stores into, and hands '
+                    f'back, the same map: what an earlier flight stored for a species is still in it when a later configuration '
+                    f'switches that species off (a switched-off species contributes to the {part} part of the inventory'
+                    + ('; with another number of points the stale array does not broadcast - an internal error that names no method)'
+                       if part == 'trajectory' else ')')),
+                   line=getattr(e, 'lineno', 0) or fi.node.lineno)
+    ctx.floor('C11-R8', n, 4, 'species maps of the trajectory and LTO producers')
 
 
 # ---------------------------------------------------------------- R4 -----
@@ -3587,10 +3941,17 @@ def rule_switches(ctx, table):
             d2 = table.differ(C, want) if d1 is None else None
             ok = d1 is None and d2 is None and bool(C)
             shown = f'{comp}: computed under {[p[3] for p in C]}, summed under {[p[3] for p in S]}'
+            # what the computing site is guarded by, as written: when the guards give no condition on the configuration
+            # (a disjunction with something that is not an option, a negated conjunction) the message says which
+            raw = '; '.join(f'`{norm(t_)[:70]}` is {"true" if pol_ else "false"}' for t_, pol_ in facts_at(ce.node, comp_calls[0])
+                            if not (isinstance(t_, ast.Compare) and isinstance(t_.comparators[0], ast.pattern)))
+            at = (f' (get_{comp.upper()}_emissions is called at {ce.name} line {int(-(-comp_calls[0].lineno // 1))} '
+                  + (f'where {raw}' if raw else 'under no test at all')
+                  + ('; that does not imply a value of any option, so the part is computed whatever the switch says' if not C else '') + ')')
             ctx.ob('C11-R5', st, shown, ok, 'same switch' if ok else
                    (f'the {comp.upper()} part is computed under one switch and added to the totals under another'
                     + (f' (they differ for {", ".join(f"{k}={v!r}" for k, v in sorted((d1 or d2).items()))})' if (d1 or d2) else '')
-                    + ': with exactly one of them on, totals no longer equal the sum of the parts'), line=x.lineno)
+                    + ': with exactly one of them on, totals no longer equal the sum of the parts' + at), line=x.lineno)
 
 
 def rule_lifecycle(ctx, table):
@@ -3961,10 +4322,16 @@ class _Writability:
         out = set()
         try:
             if isinstance(m, ast.Name):
-                for t, st, how in stores_to(fi.node):
-                    if isinstance(t, ast.Subscript) and isinstance(t.value, ast.Name) and t.value.id == m.id and how in ('assign', 'ann'):
-                        out |= self.origin(fi, _stored_value(t, st), st, depth + 1)
-                out |= self._fillers(fi, m, depth)
+                again = self._restored_everywhere(fi, m.id, at)
+                if again is not None:
+                    # a completed loop over the map's own keys put a new value at every key, and nothing else has
+                    # written into the map since: the elements are what that loop stored
+                    out |= self.origin(fi, again.value, again, depth + 1)
+                else:
+                    for t, st, how in stores_to(fi.node):
+                        if isinstance(t, ast.Subscript) and isinstance(t.value, ast.Name) and t.value.id == m.id and how in ('assign', 'ann'):
+                            out |= self.origin(fi, _stored_value(t, st), st, depth + 1)
+                    out |= self._fillers(fi, m, depth)
             elif isinstance(m, ast.Dict):
                 for v in m.values:
                     out |= self.origin(fi, v, at, depth + 1)
@@ -3994,6 +4361,66 @@ class _Writability:
             self._busy.discard(key)
         self._memo[key] = out
         return out
+
+    def _restored_everywhere(self, fi, mname, at):
+        """the store `m[k] = V` of a loop `for k in m / m.keys() / for k, v in m.items()` (no break / continue / else,
+        k not rebound) that has run to completion whenever `at` is reached - it is an earlier statement of a block that
+        holds `at` - with no other write into m (element store, del, update / setdefault / pop / clear, `|=`, rebinding,
+        m handed to a call) in the loop or in the statements of that block after it; None when there is none"""
+        if at is None:
+            return None
+        fn = fi.node
+
+        def under(x, roots):
+            while x is not None and x is not fn:
+                if any(x is r for r in roots):
+                    return True
+                x = getattr(x, '_parent', None)
+            return False
+        for lp in walk_no_nested(fn):
+            if not isinstance(lp, ast.For) or lp.orelse:
+                continue
+            im = iterated_mapping(lp.iter)
+            if im is None or norm(im[0]) != mname or im[1] not in ('keys', 'items'):
+                continue
+            kv = lp.target if im[1] == 'keys' else (lp.target.elts[0] if isinstance(lp.target, ast.Tuple) and len(lp.target.elts) == 2
+                                                     else None)
+            if not isinstance(kv, ast.Name):
+                continue
+            inner = [x for s in lp.body for x in ast.walk(s)]
+            if any(isinstance(x, (ast.Break, ast.Continue)) for x in inner) \
+                    or any(isinstance(x, ast.Name) and x.id == kv.id and isinstance(x.ctx, ast.Store) for x in inner):
+                continue
+            puts = [s for s in lp.body if isinstance(s, ast.Assign) and len(s.targets) == 1 and isinstance(s.targets[0], ast.Subscript)
+                    and norm(s.targets[0].value) == mname and isinstance(s.targets[0].slice, ast.Name) and s.targets[0].slice.id == kv.id]
+            if len(puts) != 1:
+                continue
+            par = getattr(lp, '_parent', None)
+            block = next((bl for bl in (getattr(par, f, None) for f in ('body', 'orelse', 'finalbody', 'handlers'))
+                          if isinstance(bl, list) and any(lp is s for s in bl)), None)
+            if block is None:
+                continue
+            later = block[[s is lp for s in block].index(True) + 1:]
+            if not under(at, later):
+                continue
+            zone = [lp, *later]
+            clean = True
+            for t, st, how in stores_to(fn):
+                b = t.value if isinstance(t, ast.Subscript) else t
+                if isinstance(b, ast.Name) and b.id == mname and st is not puts[0] and under(st, zone):
+                    clean = False
+            for c in calls_in(fn):
+                if not under(c, zone):
+                    continue
+                if isinstance(c.func, ast.Attribute) and isinstance(c.func.value, ast.Name) and c.func.value.id == mname \
+                        and c.func.attr in ('update', 'setdefault', 'pop', 'clear', 'popitem', '__setitem__'):
+                    clean = False
+                if any(isinstance(a_, ast.Name) and a_.id == mname for a_ in [*c.args, *[k.value for k in c.keywords]]) \
+                        and getattr(resolve_call(self.prog, fi, c), 'name', '__init__') not in ('__init__', '__post_init__'):
+                    clean = False
+            if clean:
+                return puts[0]
+        return None
 
     def _fillers(self, fi, m, depth):
         """origins of what gets into the local mapping m other than by `m[k] = V`: update / setdefault / `|=` / the
@@ -4195,7 +4622,8 @@ def run(ctx):
     ctx.stats['species_conditions'] = {k: v for k, v in sorted(groups.text.items())}
     rule_dispatch(ctx)
     rule_reads(ctx, groups)
-    rule_stores(ctx, groups)
+    flows = rule_stores(ctx, groups)
+    rule_fresh(ctx, flows)
     rule_elements(ctx)
     rule_switches(ctx, groups)
     rule_writable(ctx)
